@@ -14,6 +14,7 @@ import TdVerif.Lemmas.C18ParseTo
 import TdVerif.Lemmas.C18NewUnsafe
 import TdVerif.Lemmas.C18FromTd
 import TdVerif.Model.Memo
+import TdVerif.Lemmas.C18Consolidate
 import TdVerif.Gen.DualHelpers
 
 namespace TdVerif.Props.C18
@@ -826,5 +827,33 @@ example : Inv ⟨fun c => c == 1, [(1, true), (2, false)]⟩ := by
     · have e1 : decide ((1, true).1 = c) = false := by simp; omega
       have e2 : decide ((2, false).1 = c) = false := by simp; omega
       simp [e1, e2] at h
+
+end TdVerif.Props.C18
+
+/-! ## `consolidate` (tensordict/base.py): the contiguity test before `v.view(-1).view(torch.uint8)` has a compile-only
+branch — open finding C18-consolidate-unit-stride -/
+namespace TdVerif.Props.C18
+open TdVerif.Consolidate
+
+/-- the eager test clones every leaf that could not be viewed as bytes: no leaf fails, whatever its sizes, strides, offset -/
+theorem consolidate_eager_leaf_always_ok (m : TMeta) (hwf : m.sizes.length = m.strides.length) : okEager m = true :=
+  eager_always_ok m hwf
+
+/-- FULL STATEMENT (false of the code): `okCompile m = okEager m` for every leaf.  The compile-only test (`not
+is_contiguous()`) lets a leaf through unviewable exactly when it is contiguous, has at least one dim, exactly one element
+and a last stride other than 1 (what `td[:1, 0]` produces) -/
+theorem consolidate_compile_leaf_fails_iff (m : TMeta) :
+    okCompile m = false ↔ isContig m = true ∧ m.sizes ≠ [] ∧ numel m = 1 ∧ lastStrideIsOne m = false :=
+  compile_fails_iff m
+
+/-- proved part: on every other leaf the two branches agree -/
+theorem consolidate_branches_agree_partial (m : TMeta) (hwf : m.sizes.length = m.strides.length)
+    (h : numel m ≠ 1 ∨ m.sizes = [] ∨ lastStrideIsOne m = true) : okCompile m = okEager m :=
+  compile_ok_partial m hwf h
+
+/-- the witness (shape (1,), stride (2,)), replayed on the implementation on every run -/
+theorem consolidate_unit_stride_counterexample :
+    okEager ⟨[1], [2], 0⟩ = true ∧ okCompile ⟨[1], [2], 0⟩ = false ∧ isContig ⟨[1], [2], 0⟩ = true :=
+  compile_counterexample
 
 end TdVerif.Props.C18
